@@ -303,9 +303,14 @@ def execute(item, only=None):
     if only is not None and only.get("structure") is None and only.get("dir") is not None:
         dirs = [only["dir"]]
 
+    buf = np.zeros((n, 1))
+
     def feas(sums, spread=False):
+        # every query goes through ONE caller-owned buffer that is rewritten in place (the verdict is about the
+        # values, not about which array object carries them)
         stats["feas_calls"] += 1
-        return bool(net.is_feasible(realise(spec, idx, n, sums, spread)))
+        buf[:] = realise(spec, idx, n, sums, spread)
+        return bool(net.is_feasible(buf))
 
     for d in dirs:
         if not any(d.values()):
@@ -328,6 +333,18 @@ def execute(item, only=None):
                     hi = mid
             lam_star = lo
         lam_pts.append(lam_star)
+        if lam_star < 1.0:
+            # two periods with the same total current: spread evenly over the site first, then the direction's load
+            # 2 % beyond its boundary - a schedule with an infeasible period is infeasible
+            over = {c: v * min(1.0, lam_star * 1.02) for c, v in full.items()}
+            x_over = realise(spec, idx, n, over)
+            if not net.is_feasible(x_over):
+                x_even = np.full((n, 1), float(x_over.sum()) / n)
+                stats["feas_calls"] += 2
+                stats["n"] += 1
+                for M, label in ((np.hstack([x_even, x_over]), "even-then-overload"), (np.hstack([x_over * 0.0, x_even, x_over]), "idle-even-overload")):
+                    if net.is_feasible(M):
+                        rep("multi-period:accepted-with-an-infeasible-period:%s" % label, "a schedule whose last period alone is rejected is accepted (periods with equal total current)", True, False, dict(ctx, lam=lam_star))
         for lam in lam_pts:
             sums = {c: v * lam for c, v in full.items()}
             stats["n"] += 1
